@@ -118,6 +118,10 @@ def check_relay(r):
             raise ValueError("bad policy %r (bw %r)" % (r["policy"], r["bw"]))
 
 
+def w_has_unmeasured(r):
+    return r["bw"] is not None and (r["bw"] + int(r["id"][:2], 16)) % 4 == 0
+
+
 def render_relay(r):
     check_relay(r)
     lines = ["r %s %s %s %s %s %d %d" % (r["nick"], id_b64(r["id"]), id_b64(r["digest"]),
@@ -126,7 +130,10 @@ def render_relay(r):
         lines.append("a " + a)
     lines.append("s " + " ".join(sorted(r["flags"])))
     if r["bw"] is not None:
-        lines.append("w Bandwidth=%d" % r["bw"])
+        # dir-spec: "w" SP "Bandwidth=" INT [SP "Measured=" INT] [SP "Unmeasured=1"].  Tor's control port writes
+        # only Bandwidth=; the optional trailing keyword is rendered for a quarter of the relays (derived from the
+        # record, so the case format is unchanged) because dir-spec allows it on a w line
+        lines.append("w Bandwidth=%d%s" % (r["bw"], " Unmeasured=1" if w_has_unmeasured(r) else ""))
         if r["policy"] is not None:
             lines.append("p " + r["policy"])
     return lines
@@ -179,7 +186,7 @@ def parse_document(lines):
         elif kw == "w":
             if stage != "s" or not rest.startswith("Bandwidth="):
                 raise ValueError("misplaced or malformed w line %r" % (ln,))
-            cur["bw"] = int(rest[len("Bandwidth="):])
+            cur["bw"] = int(rest[len("Bandwidth="):].split(" ")[0])
             stage = "w"
         elif kw == "p":
             if stage != "w":
